@@ -17,7 +17,7 @@ from sim import world as Wd
 ID = 'C16'
 LEVEL = 'exploration'
 ENGINE = 'fault'
-BUDGET = {'quick': 1500, 'thorough': 100000}
+BUDGET = {'quick': 4000, 'thorough': 100000}
 WALL = {'quick': 45, 'thorough': 1500}
 RULE = ('argument lists of 1-6 in seeded order mixing trashable entries, missing paths, dot entries, names that are not valid UTF-8 and entries '
         'whose trashing is made to fail by an injected persistent condition (entry immutable: EPERM on rename; directory not writable: EACCES), '
